@@ -2,7 +2,7 @@
    Model: Model/Completion.v (completionAtPos at body/label level, bodySchemaCandidates,
    labelCandidatesFromDependentSchema, token lookups), compared with CompletionAtPos on every run. *)
 From Coq Require Import String List ZArith Bool Sorted.
-From HV Require Import Base.Pos Base.SortSpec Model.Schema Model.Ast Model.Completion Proofs.CompletionProofs.
+From HV Require Import Base.Pos Base.SortSpec Model.Schema Model.Ast Model.Completion Proofs.CompletionProofs Proofs.CompletionNoDup.
 
 (* A complete candidate list is exactly the sorted list of: count / for_each where the extension is
    on, not yet declared and matching the prefix; the attributes of the effective schema that are
@@ -27,3 +27,24 @@ Theorem C07_offered_block_has_room : forall b t s,
   is_block_declarable b t s = true -> (bk_max s = 0 \/ count_type (b_blocks b) t + 1 <= bk_max s)%Z.
 Proof. exact offered_block_does_not_exceed_max. Qed.
 Print Assumptions C07_offered_block_has_room.
+
+(* Without duplicates: a list marked complete offers no name twice as the same kind of item (attribute / block type),
+   the schema's attribute names and block type names being unique (keys of Go maps). *)
+Theorem C07_body_candidates_without_duplicates : forall max b bs prefix edit,
+  NoDup (map fst (bs_attrs bs)) -> NoDup (map fst (bs_blocks bs)) ->
+  cs_complete (body_schema_candidates max b bs prefix edit) = true ->
+  NoDup (map ident (cs_list (body_schema_candidates max b bs prefix edit))).
+Proof. intros max b bs prefix edit. exact (complete_list_nodup b bs prefix edit max). Qed.
+Print Assumptions C07_body_candidates_without_duplicates.
+
+(* An attribute of the schema that is offered can still be declared: it is not present in the body yet, it is not
+   read-only (computed without being optional) and it starts with the typed prefix - so accepting it neither repeats
+   an attribute nor writes one the schema does not know. *)
+Theorem C07_offered_attribute_can_be_declared : forall b bs prefix p,
+  In p (filter (attr_ok b bs prefix) (bs_attrs bs)) ->
+  In p (bs_attrs bs) /\
+  find_attr (fst p) (b_attrs b) = None /\
+  (af_computed (as_flags (snd p)) = true -> af_optional (as_flags (snd p)) = true) /\
+  has_prefix prefix (fst p) = true.
+Proof. exact offered_schema_attribute_declarable. Qed.
+Print Assumptions C07_offered_attribute_can_be_declared.
